@@ -189,6 +189,21 @@ func parseTypeString(typeStr string) base.T {
 	return ConvertToBuiltinT(typeStr)
 }
 
+// parseArgumentClass reads one parameter type, with or without the prefix
+// that was written in front of it: a namespaced name is the class of that
+// namespace ('Store::Entry', '?Store::Entry', '*Store::Entry').
+func parseArgumentClass(typeStr string) base.T {
+	if base.IsNameSpace(typeStr) {
+		frame, parentClass, class := base.SeparateNameSpaces(typeStr)
+		classT := *base.MakeObject(class)
+		classT.SetFrame(base.CalculateFrame(frame, parentClass))
+
+		return classT
+	}
+
+	return parseTypeString(typeStr)
+}
+
 func parseArguments(args []MethodArgument) []base.T {
 	var result []base.T
 
@@ -210,7 +225,7 @@ func parseArguments(args []MethodArgument) []base.T {
 					if !strings.Contains(typeStr, "|") && !strings.Contains(typeStr, "[") {
 						arg.IsAsterisk = true
 						typeStr = typeStr[1:]
-						baseType = parseTypeString(typeStr)
+						baseType = parseArgumentClass(typeStr)
 					} else {
 						baseType = parseTypeString(typeStr)
 					}
@@ -219,21 +234,14 @@ func parseArguments(args []MethodArgument) []base.T {
 					// Old style: "?String" in arguments means default parameter
 					if !strings.Contains(typeStr, "|") && !strings.Contains(typeStr, "[") {
 						typeStr = typeStr[1:]
-						baseType = parseTypeString(typeStr)
+						baseType = parseArgumentClass(typeStr)
 						baseType.SetHasDefault(true)
 					} else {
 						baseType = parseTypeString(typeStr)
 					}
 
 				default:
-					if base.IsNameSpace(typeStr) {
-						frame, parentClass, class := base.SeparateNameSpaces(typeStr)
-						baseType = *base.MakeObject(class)
-						baseType.SetFrame(base.CalculateFrame(frame, parentClass))
-						break
-					}
-
-					baseType = parseTypeString(typeStr)
+					baseType = parseArgumentClass(typeStr)
 				}
 			}
 
